@@ -1328,6 +1328,26 @@ func (km *KeystoreManager) UpdateManagedKeystores(dbTransaction db.ReadTransacti
 	}
 }
 
+// ForgetAddresses removes addresses that NextAddresses added to the cached keystore inside a
+// transaction that did not commit.
+func (km *KeystoreManager) ForgetAddresses(accountID string, managedAddresses []*ManagedAddress) {
+	km.mu.Lock()
+	defer km.mu.Unlock()
+	if addrManager, ok := km.managedKeystores[accountID]; ok {
+		addrManager.forgetManagedAddress(managedAddresses)
+	}
+}
+
+// RestoreCachedKeystore puts back a keystore that DeleteKeystore dropped from the cache inside a
+// transaction that did not commit (its private keys stay cleared).
+func (km *KeystoreManager) RestoreCachedKeystore(addrManager *AddrManager) {
+	km.mu.Lock()
+	defer km.mu.Unlock()
+	if _, ok := km.managedKeystores[addrManager.keystoreName]; !ok {
+		km.managedKeystores[addrManager.keystoreName] = addrManager
+	}
+}
+
 func (km *KeystoreManager) RemoveCachedKeystore(accountID string) {
 	km.mu.Lock()
 	defer km.mu.Unlock()
